@@ -92,20 +92,82 @@ func jEncoder(t *sx, seed uint64, cfg int) {
 		oerr := oe.Encode(v.Interface())
 		serr := se.Encode(v.Interface())
 		// an Encoder is used for a STREAM of values: one to three more calls on the same Encoders (the indent buffer
-		// and the output of earlier calls must not come back), with a change of settings between calls now and then
-		for k := uint64(1); k <= seed%4 && oerr == nil && serr == nil; k++ {
+		// and the output of earlier calls must not come back), with a change of settings between calls now and then.
+		// A value that cannot be marshalled (every third stream has some) fails THAT call only: the error of a call
+		// is not sticky (only a writer error is), the following values are encoded; observable: error-ness per call
+		// and the whole output
+		flagOf := func(err error) string {
+			if err != nil {
+				return "e"
+			}
+			return "-"
+		}
+		oflags, sflags := flagOf(oerr), flagOf(serr)
+		for k := uint64(1); k <= seed%4 && oflags == sflags; k++ {
 			if (seed>>3)%3 == 0 {
 				oe.SetIndent(prefixes[int(k)%3], indents[int(seed>>5)%3])
 				se.SetIndent(prefixes[int(k)%3], indents[int(seed>>5)%3])
 				oe.SetEscapeHTML(k%2 == 0)
 				se.SetEscapeHTML(k%2 == 0)
 			}
-			w := jValue(t, seed+k, 0)
-			oerr = oe.Encode(w.Interface())
-			serr = se.Encode(w.Interface())
+			em := 0
+			if (seed>>7)%3 == 0 && k%2 == 1 {
+				em = 1
+			}
+			w := jValue(t, seed+k, em)
+			oflags += flagOf(oe.Encode(w.Interface()))
+			sflags += flagOf(se.Encode(w.Interface()))
 		}
-		orc = outObs(ob.Bytes(), oerr)
-		return outObs(sb.Bytes(), serr)
+		orc = oflags + " " + hexs(ob.Bytes())
+		return sflags + " " + hexs(sb.Bytes())
+	})
+	emit(fn, args, impl, orc)
+}
+
+// failAfter is a Writer that accepts n bytes and then fails
+type failAfter struct{ n int }
+
+func (w *failAfter) Write(p []byte) (int, error) {
+	if len(p) > w.n {
+		k := w.n
+		w.n = 0
+		return k, fmt.Errorf("writer failed")
+	}
+	w.n -= len(p)
+	return len(p), nil
+}
+
+// jEncoderWriteErr: an Encoder whose Writer fails on one of the calls: the failing call reports the error, like
+// encoding/json's Encoder on the same Writer
+func jEncoderWriteErr(t *sx, seed uint64) {
+	if !mine() {
+		skip()
+		return
+	}
+	args := fmt.Sprintf("%s|%d", sxString(t), seed)
+	var orc string
+	fn := "j.encwerr" + classSuffix(jType(t))
+	impl := guarded(func() string {
+		run := func(std bool) string {
+			w := &failAfter{n: int(seed % 40)}
+			flags := ""
+			var enc interface{ Encode(any) error }
+			if std {
+				enc = stdjson.NewEncoder(w)
+			} else {
+				enc = json.NewEncoder(w)
+			}
+			for k := uint64(0); k < 3; k++ {
+				if err := enc.Encode(jValue(t, seed+k, 0).Interface()); err != nil {
+					flags += "e"
+				} else {
+					flags += "-"
+				}
+			}
+			return flags
+		}
+		orc = run(true)
+		return run(false)
 	})
 	emit(fn, args, impl, orc)
 }
@@ -136,7 +198,7 @@ func jEscape(s []byte) {
 var c01Fixed = []string{
 	"(struct (f A ,string (ptr int)))",
 	"(struct (f A ,string str) (f B ,string bool) (f C ,string f64) (f D ,string u8))",
-	"(map UKey int)", "(struct (f M - (map UKey str)) (f N - namedany))", "(slice namedany)", "(map TextKey int)", "(map IntKey str)", "(map StructKey int)", "(map (ptr int) int)",
+	"(map NameKey int)", "(map NameKeyU str)", "(struct (f M - (map NameKey (map NameKeyU bool))))", "(map UKey int)", "(struct (f M - (map UKey str)) (f N - namedany))", "(slice namedany)", "(map TextKey int)", "(map IntKey str)", "(map StructKey int)", "(map (ptr int) int)",
 	"(struct (e EmbA) (e EmbB))", "(struct (e EmbA) (f X - int))", "(struct (e EmbC) (e EmbD))", "(struct (e (ptr EmbA)) (e EmbD))",
 	"(arr 1 (ptr int))", "(struct (f A - (arr 1 (ptr int))))", "(arr 1 (map str int))",
 	"(struct (f A - (struct (f B - (ptr int)))))",
@@ -182,6 +244,9 @@ func c01() {
 			jMarshal(t, seed, em)
 			if j < 2 {
 				jEncoder(t, seed, rndn(54))
+				if seed%4 == 0 {
+					jEncoderWriteErr(t, seed)
+				}
 			}
 		}
 	}
